@@ -214,12 +214,12 @@ pub fn features(fe: &str, text: &str) -> Value {
 pub enum Outcome {
     Ok { tokens: usize, lints: usize, micros: u128, bad_tokens: usize, unordered: bool },
     Panic { stage: &'static str, msg: String, loc: String },
-    Hang { secs: u64 },
+    Hang { secs: u64, stage: &'static str },
     /// not run: the search was cut short after MAX_HANGS hangs (hung threads cannot be killed and keep a core busy)
     Skipped,
 }
 
-const MAX_HANGS: usize = 6;
+const MAX_HANGS: usize = 12;
 static SETUP_PANICS: AtomicUsize = AtomicUsize::new(0);
 
 pub struct Worker {
@@ -267,14 +267,19 @@ impl Worker {
     pub fn prepare(&mut self, c: &Case) {
         self.configure(c.dialect, &c.cfg);
     }
-    /// `prepare(c)` must have been called.
     pub fn run(&mut self, c: &Case) -> Outcome {
+        self.run_staged(c, &AtomicUsize::new(0))
+    }
+    /// `prepare(c)` must have been called.  `stage` is set to 1 once the document exists (so that the
+    /// watchdog can tell a front-end that never returns from a rule that never returns).
+    pub fn run_staged(&mut self, c: &Case, stage: &AtomicUsize) -> Outcome {
         let t0 = Instant::now();
         let dict = self.dict.clone();
         let doc = match guarded_loc(|| frontends::make_document(&c.fe, &c.text, &dict)) {
             Ok(d) => d,
             Err((msg, loc)) => return Outcome::Panic { stage: "document", msg, loc },
         };
+        stage.store(1, Ordering::SeqCst);
         let g = self.group(c.dialect);
         let r = guarded_loc(|| g.lint(&doc));
         match r {
@@ -326,13 +331,14 @@ pub fn run_cases(cases: Arc<Vec<Case>>, threads: usize, deadline: Duration) -> V
     let next = Arc::new(AtomicUsize::new(0));
     let results: Arc<Mutex<Vec<Option<Outcome>>>> = Arc::new(Mutex::new(vec![None; n]));
     // per worker: (case index, start) of the case in flight; generation counter to abandon a hung worker
-    type Slot = Arc<Mutex<Option<(usize, Instant, u64, String)>>>;
+    type Slot = Arc<Mutex<Option<(usize, Instant, u64, String, Arc<AtomicUsize>)>>>;
     let spawn = |slot: Slot, next: Arc<AtomicUsize>, results: Arc<Mutex<Vec<Option<Outcome>>>>, cases: Arc<Vec<Case>>| {
         std::thread::Builder::new()
             .stack_size(64 << 20)
             .spawn(move || {
                 let mut w = Worker::new();
                 let task = own_task();
+                let stage = Arc::new(AtomicUsize::new(0));
                 loop {
                     let i = next.fetch_add(1, Ordering::SeqCst);
                     if i >= cases.len() {
@@ -350,8 +356,9 @@ pub fn run_cases(cases: Arc<Vec<Case>>, threads: usize, deadline: Duration) -> V
                             Outcome::Panic { stage: "setup (LintGroup::new_curated / configuration)", msg, loc }
                         }
                         Ok(()) => {
-                            *slot.lock().unwrap() = Some((i, Instant::now(), thread_cpu_ticks(&task).unwrap_or(0), task.clone()));
-                            w.run(&cases[i])
+                            stage.store(0, Ordering::SeqCst);
+                            *slot.lock().unwrap() = Some((i, Instant::now(), thread_cpu_ticks(&task).unwrap_or(0), task.clone(), stage.clone()));
+                            w.run_staged(&cases[i], &stage)
                         }
                     };
                     let mut res = results.lock().unwrap();
@@ -384,11 +391,11 @@ pub fn run_cases(cases: Arc<Vec<Case>>, threads: usize, deadline: Duration) -> V
         let mut busy = 0;
         for k in 0..slots.len() {
             let cur = slots[k].lock().unwrap().clone();
-            if let Some((i, t0, cpu0, task)) = cur {
+            if let Some((i, t0, cpu0, task, stage)) = cur {
                 if over_deadline(&task, cpu0, t0, deadline) {
                     let mut res = results.lock().unwrap();
                     if res[i].is_none() {
-                        res[i] = Some(Outcome::Hang { secs: deadline.as_secs() });
+                        res[i] = Some(Outcome::Hang { secs: deadline.as_secs(), stage: if stage.load(Ordering::SeqCst) == 0 { "document" } else { "lint" } });
                         drop(res);
                         hangs += 1;
                         // abandon the hung thread (it cannot be killed) and start a fresh worker
@@ -532,9 +539,18 @@ fn unterminated_for(fe: &str) -> Vec<String> {
                 "'''", "\"\"\"", "\"\"\" teh \"\"\"", "\"", "'", "\"a", "x = \"é😀\" // teh", "//go:generate", "//go:build x\n//", "//go:build x\n// teh", "/// ```\n/// code", "// ```", "/* a */ /* b */",
                 "/* a */\n\n\n\n/* b */", "// a\n\n\n\n\n// b", "# a\n\n\n\n # b", "// spellchecker:ignore", "/* é */ x /* 😀 teh */", "<?php // teh", "<?php /* teh", "<?php\n# teh\n?> teh <?php // teh",
                 "=begin\nteh\n=end", "=begin\nteh", "<<EOF\nteh\nEOF", "#[[ teh ]]", "#[[ teh", "/+ teh +/", "(* teh *)", "; teh", "% teh", "<!-- teh -->", "{/* teh */}", "<div>{/* teh */}</div>",
+                "f(1(1",
                 "const x = <div>// teh</div>;", "`${/* teh */ 1}`", "r#\"// teh\"#", "'//' // teh", "x /* a /* b */ c */ y", "#if 0\nteh\n#endif", "\\\n// teh", "// a \\\nteh",
             ] {
                 v.push(s.to_string());
+            }
+            // code that is being typed: unterminated nested calls / brackets.  tree-sitter-dart is known to
+            // never return on several of these (F32); every such case costs 10 s and a core until the process
+            // exits, so Dart only gets the one witness above.
+            if lang != "dart" {
+                for s in ["1(1(1", "foo(bar(1\n", "a[b[1", "f(g(h(", "((((((((", "[[[[[[[[", "{{{{{{{{", "f(\"a", "f(1, (2, (3", "x = f(1(1;", "if (a(b(", "a.b(c.d(1"] {
+                    v.push(s.to_string());
+                }
             }
         }
     }
@@ -647,7 +663,7 @@ fn generate(a: &Args, r: &mut Rng) -> Vec<Case> {
             push(&mut cases, fe, t.clone(), "generated", r, false);
         }
         // whitespace-mutated variants (several whitespace tokens between words)
-        let n_ws = if wrapped { a.scale(4, 40) } else { a.scale(24, 300) };
+        let n_ws = if wrapped { a.scale(4, 60) } else { a.scale(24, 600) };
         for i in 0..n_ws {
             let base = match i % 3 {
                 0 => gen::sentence(r),
@@ -799,10 +815,24 @@ fn record(rep: &mut Report, c: &Case, o: &Outcome) {
             let short: String = msg.chars().take(300).collect();
             rep.fail("panic", format!("panic in {stage} at {loc}: {short}"), c.to_json());
         }
-        Outcome::Hang { secs } => {
-            rep.fail("hang", format!("no return within {secs} s for {} chars", n), c.to_json());
+        Outcome::Hang { secs, stage } => {
+            rep.fail("hang", format!("no return within {secs} s for {} chars (in {stage})", n), c.to_json());
         }
         Outcome::Skipped => rep.count("skipped_after_too_many_hangs"),
+    }
+}
+
+/// The correspondence and the scaling probe run without a watchdog.  They are skipped when the search saw
+/// a hang they could run into: a rule / the pattern framework that never returns (stage lint), or a
+/// front-end they use that never returns.  A third-party parser of another language that hangs in
+/// document construction (F32: tree-sitter-dart) does not concern them.
+fn endangers_unguarded(c: &Case, o: &Outcome) -> bool {
+    match o {
+        Outcome::Hang { stage, .. } => {
+            let base = c.fe.split('+').next().unwrap();
+            *stage == "lint" || matches!(base, "plain" | "markdown" | "markdown-ilt" | "html" | "gitcommit" | "typst" | "lhaskell" | "c:rust" | "c:javascript" | "c:java" | "c:python" | "c:go")
+        }
+        _ => false,
     }
 }
 
@@ -826,7 +856,7 @@ pub fn run(a: &Args, corpus: &[Value]) {
         }
     }
     let outs = run_cases(Arc::new(first.clone()), threads, deadline);
-    let outs0_hangs = outs.iter().filter(|o| matches!(o, Outcome::Hang { .. })).count();
+    let outs0_hangs = first.iter().zip(&outs).filter(|(c, o)| endangers_unguarded(c, o)).count();
     for (c, o) in first.iter().zip(&outs) {
         record(&mut rep, c, o);
         if a.replay.is_some() {
@@ -854,7 +884,7 @@ pub fn run(a: &Args, corpus: &[Value]) {
                 worst = (*micros, i);
             }
         }
-        if matches!(o, Outcome::Hang { .. }) {
+        if endangers_unguarded(c, o) {
             hangs += 1;
         }
     }
